@@ -107,4 +107,21 @@ where anyL : List Ann → Bool
   | [] => false
   | a :: as => a.hasTypeOfUnion || anyL as
 
+/-- the annotation contains a forward reference that does not name a class of the context (outside the vocabulary of
+    C01/C02: "forward references naming a class") -/
+def Ann.hasUnresolvedFwd (env : Env) : Ann → Bool
+  | .fwd n => (env.ctx n).isNone
+  | .strAnn n => (env.ctx n).isNone
+  | .tuple _ items => anyL env items
+  | .clsF _ _ anns => anyL env anns
+  | .union _ ms => anyL env ms
+  | .typeOf _ a => a.hasUnresolvedFwd env
+  | .seq _ _ a => a.hasUnresolvedFwd env
+  | .map _ _ k v => k.hasUnresolvedFwd env || v.hasUnresolvedFwd env
+  | .tupleVar _ a => a.hasUnresolvedFwd env
+  | _ => false
+where anyL (env : Env) : List Ann → Bool
+  | [] => false
+  | a :: as => a.hasUnresolvedFwd env || anyL env as
+
 end PedVerif.Checker
